@@ -133,3 +133,25 @@ Proof.
     apply map_Forall_singleton. unfold small. vm_compute. reflexivity. }
   split; [vm_compute; reflexivity|vm_compute; lia].
 Qed.
+
+(* ---- C14: the same round as the C06 one (three correct nodes whose caches hold {7 := nv_def}, one sender of garbage) meets
+   the hypotheses of the end-to-end one-round theorem ---- *)
+From DS Require Import Converge ConvergeProofs.
+Definition e14_prev : outcome := match decode_outcome 1 e6_prev_bytes with Ok p => p | _ => p1 end.
+Definition e14_target : gmap Z chandef := {[ 7 := nv_def ]}.
+Example e14_round :
+  decode_outcome (c_pver nv_cf) e6_prev_bytes = Ok e14_prev /\ o_stage e14_prev = Production /\
+  verify_defs (fun _ => true) e14_target = true /\
+  (forall i rms ups vals, In (LCorrect i rms ups vals) e6_ss -> oi_expected i = e14_target) /\
+  (length (List.filter (fun p : option observation * bool => negb (snd p)) e6_tagged) <= c_f nv_cf)%nat /\
+  (c_f nv_cf < length (List.filter (fun p : observation * bool => snd p) (accept_tagged false e6_tagged)))%nat /\
+  (size (dom (o_defs e14_prev) ∪ dom e14_target) <= chan_cap)%nat /\
+  match outcome_step nv_h nv_cf 2 e14_prev (map fst e6_tagged) with
+  | Ok next => o_stage next <> Retired /\ o_defs next !! 7 = Some nv_def
+  | _ => False end.
+Proof.
+  split; [vm_compute; reflexivity|]. split; [vm_compute; reflexivity|]. split; [vm_compute; reflexivity|].
+  split; [intros i rms ups vals Hin; destruct Hin as [H|[H|[H|[H|[]]]]]; try discriminate; inversion H; reflexivity|].
+  split; [vm_compute; lia|]. split; [vm_compute; lia|]. split; [vm_compute; lia|].
+  vm_compute. split; [discriminate|reflexivity].
+Qed.
